@@ -231,8 +231,11 @@ impl<'req, B: FromBody<'req>> FromRequest<'req> for B {
             Response::BadRequest().with_text(msg.to_string())
         }
 
-        /* the media type must end where `MIME_TYPE` ends: at the end of the value or before its `;` parameters */
-        if req.headers.ContentType()?.strip_prefix(B::MIME_TYPE)
+        /* the media type must end where `MIME_TYPE` ends: at the end of the value or before its `;` parameters.
+           type and subtype are case-insensitive (RFC 9110 8.3.1) */
+        let content_type = req.headers.ContentType()?;
+        if content_type.get(..B::MIME_TYPE.len()).is_some_and(|media_type| media_type.eq_ignore_ascii_case(B::MIME_TYPE))
+        && content_type.get(B::MIME_TYPE.len()..)
             .is_some_and(|rest| rest.trim_start().is_empty() || rest.trim_start().starts_with(';'))
         {
             Some(B::from_body(req.payload()?).map_err(reject))
